@@ -35,10 +35,11 @@ ASSUMPTIONS = [
 REQUIRED_COUNTERS = ["sequences", "operations", "file_probes_with_checkpoint", "final_resumes"]
 EXHAUSTIVE = lambda tier: True  # noqa: E731
 
-TOKENS = ["fitA", "fitB", "fitBo", "is", "smc", "E", "E2", "X", "R", "smc2", "fitB2", "is0", "fit0", "fitBx", "smcX"]
+TOKENS = ["fitA", "fitB", "fitBo", "is", "smc", "E", "E2", "X", "R", "smc2", "fitB2", "is0", "fit0", "fitBx", "smcX", "init"]
 # smcX: an SMC run into the active file that is interrupted by an exception from the likelihood (caught by the caller)
 # fitBx: a refit whose update of file1 fails (the file is held open elsewhere); the caller catches the error and carries on
 # is0 / fit0: the operation names no file at all (outside a context it touches no file and only changes the object's state)
+# init: the proposal is built anew (Aspire.init_flow()); it has to be fitted again before the next sampling call
 # smc2 / fitB2: the operation names file2 explicitly (checkpoint_path=...), whatever context is active
 
 
@@ -57,6 +58,10 @@ def valid(seq):
             if depth == 0:
                 return False
             depth -= 1
+        elif tok == "init":
+            if not fitted:
+                return False
+            fitted = False
         elif tok.startswith("fit"):
             fitted = True
             has_file = has_file or tok not in ("fitB2", "fit0") or depth > 0
@@ -106,6 +111,9 @@ def cases(tier, seed):
         if tries % 8 == 5:
             # structured: inside one context a checkpointed run, a refit whose file update fails, another run
             seq = ["E", str(g.choice(["fitA", "fitB"])), "smc", "fitBx", str(g.choice(["smc", "is"]))] + [TOKENS[i] for i in g.integers(0, len(TOKENS), int(g.integers(0, 3)))]
+        if tries % 8 == 7:
+            # structured: inside a context a checkpointed run, the proposal rebuilt and fitted through another file, another run
+            seq = ["E", str(g.choice(["fitA", "fitB"])), "smc", "init", str(g.choice(["fitB2", "fit0", "fitB"])), str(g.choice(["smc", "is"]))] + [TOKENS[i] for i in g.integers(0, len(TOKENS), int(g.integers(0, 2)))]
         if valid(seq) and ("smc" in seq or "smc2" in seq or "smcX" in seq):
             extra.append(seq)
     per = 12
@@ -251,6 +259,9 @@ def run_sequence(seq, g, counters, viol):
                 finally:
                     if holder is not None:
                         holder.close()
+            elif tok == "init":
+                a.init_flow()
+                counters["proposals_rebuilt"] += 1
             elif tok.startswith("fit"):
                 kw = {} if inside else {"checkpoint_path": f1}
                 a.fit(data["A" if tok == "fitA" else "B"], overwrite=(tok == "fitBo"), **kw)
